@@ -544,6 +544,16 @@ macro_rules! interp {
                     "shrink_to_fit" => { let r = reg(w[1]);
                         (exec(0, || { regs[r].shrink_to_fit(); }), exec(1, || { mirs[r].shrink_to_fit(); })) }
                     "capacity" => { let r = reg(w[1]); (exec(0, || regs[r].capacity()), exec(1, || {})) }
+                    // the capacity API dispatched through SoAVec
+                    "treserve" => { let r = reg(w[1]);
+                        (exec(0, || { tr::reserve::<T, $V>(&mut regs[r], arg(2)); }), exec(1, || { mirs[r].reserve(arg(2)); })) }
+                    "treserve_exact" => { let r = reg(w[1]);
+                        (exec(0, || { tr::reserve_exact::<T, $V>(&mut regs[r], arg(2)); }), exec(1, || { mirs[r].reserve_exact(arg(2)); })) }
+                    "tshrink_to_fit" => { let r = reg(w[1]);
+                        (exec(0, || { tr::shrink_to_fit::<T, $V>(&mut regs[r]); }), exec(1, || { mirs[r].shrink_to_fit(); })) }
+                    "tcapacity" => { let r = reg(w[1]); (exec(0, || tr::capacity::<T, $V>(&regs[r])), exec(1, || {})) }
+                    "twith_capacity" => { let r = reg(w[1]);
+                        (exec(0, || { regs[r] = tr::with_capacity::<T, $V>(arg(2)); }), exec(1, || { mirs[r] = Vec::with_capacity(arg(2)); })) }
                     "caps" => { let r = reg(w[1]);
                         (exec(0, || { let mut c = vec![]; <T as Shape>::caps(&regs[r], &mut c); format!("{:?}", c).replace(' ', "") }), exec(1, || {})) }
                     // promise r [n]: push n (default: capacity() - len(), at most 64) elements; did any field array move?
